@@ -506,6 +506,7 @@ def run(ck: Checker) -> None:
     ck.guard("R-SLICE", lambda: r_slice(ck))
     from . import state_rules as S15
     ck.guard("R-INTERVAL-LAWS", lambda: S15.r_no_raw_construction(ck, "R-INTERVAL-LAWS", ORIGIN, ("CodePoint", "CodeRange", "CodeOrigin", "MultiOrigin")))
+    ck.guard("R-INTERVAL-LAWS", lambda: S15.r_flag_pairing(ck, "R-INTERVAL-LAWS", (ORIGIN,)))  # the construction guards are never switched off for what comes later
     from .c10 import r_operand_alias_mutation
     ck.guard("R-MERGE-FLAT", lambda: r_operand_alias_mutation(ck, "R-MERGE-FLAT"))  # a + b leaves a and b as they were
     ck.require_count("R-INTERVAL-LAWS", 12)
